@@ -13,7 +13,8 @@ import (
 
 // Kinds a workload can be expressed as ("Pods" = bare Pods sharing one controller ownerReference).
 // "PodsExtraOwner": the same, each pod also carrying a non-controller ownerReference listed first.
-var ExpressKinds = []string{"Deployment", "ReplicaSet", "StatefulSet", "DaemonSet", "Job", "CronJob", "ReplicationController", "Pods", "PodsExtraOwner"}
+// "PodsCustomOwner": the same, the controller being a custom resource (kind Rollout).
+var ExpressKinds = []string{"Deployment", "ReplicaSet", "StatefulSet", "DaemonSet", "Job", "CronJob", "ReplicationController", "Pods", "PodsExtraOwner", "PodsCustomOwner"}
 
 // Express renders workload wl as kind k with the given replica count (r < 0: field absent).
 // Workload-level metadata.labels and spec.selector deliberately differ from the pod-template
@@ -47,7 +48,7 @@ func Express(wl Workload, k string, r int) []*resource.Info {
 		return []*resource.Info{info(&batchv1.CronJob{ObjectMeta: om, Spec: batchv1.CronJobSpec{Schedule: "* * * * *", JobTemplate: batchv1.JobTemplateSpec{ObjectMeta: metav1.ObjectMeta{Labels: decoy}, Spec: batchv1.JobSpec{Parallelism: rp, Selector: sel, Template: tmpl}}}}, "batch/v1", k)}
 	case "ReplicationController":
 		return []*resource.Info{info(&corev1.ReplicationController{ObjectMeta: om, Spec: corev1.ReplicationControllerSpec{Replicas: rp, Selector: map[string]string{"app": "decoy-selector"}, Template: &tmpl}}, "v1", k)}
-	case "Pods", "PodsExtraOwner":
+	case "Pods", "PodsExtraOwner", "PodsCustomOwner":
 		var res []*resource.Info
 		n := r
 		if n < 1 {
@@ -56,11 +57,13 @@ func Express(wl Workload, k string, r int) []*resource.Info {
 		for i := 0; i < n; i++ {
 			inf := InfoPodIPs(wl.NS, fmt.Sprintf("%s-pod%d", wl.Name, i), wl.Name, wl.Labels, wl.Ports, PodHostIP(i), PodIP(i))
 			if k == "PodsExtraOwner" {
+				AddExtraOwners(inf, wl.Name)
+			}
+			if k == "PodsCustomOwner" {
+				// the controller is a custom resource (an Argo Rollout): still one workload, of that kind
 				md := inf.Object.(*unstructured.Unstructured).Object["metadata"].(map[string]interface{})
-				refs := md["ownerReferences"].([]interface{})
-				extra := map[string]interface{}{"apiVersion": "example.com/v1", "kind": "PodGroup", "name": "group-" + wl.Name, "uid": "u1", "controller": false}
-				noflag := map[string]interface{}{"apiVersion": "example.com/v1", "kind": "Audit", "name": "audit-" + wl.Name, "uid": "u2"}
-				md["ownerReferences"] = append([]interface{}{extra, noflag}, refs...)
+				ref := md["ownerReferences"].([]interface{})[0].(map[string]interface{})
+				ref["kind"], ref["apiVersion"] = "Rollout", "argoproj.io/v1alpha1"
 			}
 			res = append(res, inf)
 		}
@@ -74,5 +77,18 @@ func ExpressedKind(k string) string {
 	if k == "Pods" || k == "PodsExtraOwner" {
 		return "ReplicaSet"
 	}
+	if k == "PodsCustomOwner" {
+		return "Rollout"
+	}
 	return k
+}
+
+// AddExtraOwners puts two ownerReferences that are not the controller (one says controller: false, one omits the field)
+// in front of the pod's controller reference.
+func AddExtraOwners(inf *resource.Info, name string) {
+	md := inf.Object.(*unstructured.Unstructured).Object["metadata"].(map[string]interface{})
+	refs := md["ownerReferences"].([]interface{})
+	extra := map[string]interface{}{"apiVersion": "example.com/v1", "kind": "PodGroup", "name": "group-" + name, "uid": "u1", "controller": false}
+	noflag := map[string]interface{}{"apiVersion": "example.com/v1", "kind": "Audit", "name": "audit-" + name, "uid": "u2"}
+	md["ownerReferences"] = append([]interface{}{extra, noflag}, refs...)
 }
